@@ -275,6 +275,25 @@ func TestVerifC10(t *testing.T) {
 							}
 							di++
 						}
+						for ui := range dumps {
+							need := false
+							for _, e := range st.ends[ui] {
+								if cut >= e {
+									need = true
+								}
+							}
+							if need && ui >= di {
+								return mk("dump-with-complete-goroutines-missing", fmt.Sprintf("dump %d has goroutines entirely before the cut but no snapshot was returned for it", ui))
+							}
+						}
+						if sig >= 2 {
+							lastNL := bytes.LastIndexByte(data[:cut], '\n')
+							for ci, c := range calls {
+								if c.err != nil && c.err != errSentinel && c.err != io.EOF && c.end >= lastNL+1 && cut > lastNL+1 {
+									return mk("reader-error-replaced", fmt.Sprintf("call %d read the last delivered line together with the injected reader error but returned %v", ci, c.err))
+								}
+							}
+						}
 						// forwarded bytes
 						// a final unterminated line is exempt (DESIGN.md section 5, C10)
 						if i := bytes.LastIndexByte(fwd, '\n'); i != len(fwd)-1 {
